@@ -244,7 +244,7 @@ def run(ctx):
     from .pairing import default_codes
     codes_ = default_codes()
     n2i = {n: i for i, n in codes_.items() if i & 3 == 0}
-    nts_big = sorted({h + d for h in mine.size_hints(64) for d in (1, 9)} | ({300} if ctx.quick else {300, 5000}))
+    nts_big = sorted({h + d for h in mine.size_hints(64, hi=70000 if ctx.quick else 300000) for d in (1, 9)} | ({300} if ctx.quick else {300, 5000}))
     for nt in nts_big:
         evs = {}
         for t in range(1, nt + 1):
